@@ -1,2 +1,54 @@
-/- Properties/C07.lean — placeholder until the container proofs land -/
-import Model.Container
+/-
+  Properties/C07.lean — any history of write / failed write / flush / block copy reads back as the
+  records successfully submitted. Re-opening for append resumes from the same stream contents with an
+  empty pending block (the file's own schema, codec and marker are used, arguments are ignored — that
+  part is tied by correspondence), so a history with re-opens is a history without them.
+  Lemmas: Proofs/Writer.lean.
+-/
+import Properties.C04
+
+open Binary Container ContainerProofs WriterProofs
+
+/-- **C07 (invariant).** for every finite history over {write a conforming record, write a record that
+    fails, flush, copy a block that decodes to its record count}: the stream is `header ++` well-formed
+    blocks, the pending buffer holds exactly `count` whole records, and blocks ++ pending are exactly the
+    records successfully submitted, in submission order -/
+theorem c07_history (fuel : Nat) (env : Env) (o : WOpts) (s : Schema) (validate : Val → R Bool) (cfg : WCfg)
+    (hdr : Bytes) (ops : List Op)
+    (hops : ∀ op ∈ ops, OpOk (fileEnc fuel env o s) (fileDec fuel env s) (fileNf fuel env o s) op) :
+    let init : WState × Ghost := ({ out := hdr, pending := [], count := 0 }, { blocks := [], pend := [], submitted := [] })
+    let sg := runG (fileEnc fuel env o s) (fileDec fuel env s) validate cfg (fileNf fuel env o s) init ops
+    WInv (fileDec fuel env s) cfg hdr sg.1 sg.2 := by
+  intro init sg
+  have hinit : WInv (fileDec fuel env s) cfg hdr init.1 init.2 := ⟨by simp [init, flat], by simp [init], rfl, rfl⟩
+  exact inv_run (fileEnc fuel env o s) (fileDec fuel env s) validate cfg (fileNf fuel env o s)
+    (ExtendProofs.readData_ext env {} fuel s) hdr init ops hinit hops
+
+/-- **C07 (read back).** after each flush the stream reads back as exactly the records successfully
+    submitted so far, in submission order, and ends normally -/
+theorem c07_flush_reads_back (fuel : Nat) (env : Env) (o : WOpts) (s : Schema) (validate : Val → R Bool) (cfg : WCfg)
+    (hs : cfg.codec.Sound) (hsync : cfg.sync.length = 16) (hdr : Bytes) (st : WState) (g : Ghost)
+    (h : WInv (fileDec fuel env s) cfg hdr st g)
+    (hfit : ∀ b ∈ (gStep (fileEnc fuel env o s) (fileDec fuel env s) validate cfg (fileNf fuel env o s) st g .flush).blocks,
+        b.count < 2 ^ 63 ∧ (cfg.codec.compress b.payload).length < 2 ^ 63)
+    (k : Nat)
+    (hk : (gStep (fileEnc fuel env o s) (fileDec fuel env s) validate cfg (fileNf fuel env o s) st g .flush).blocks.length < k) :
+    ∃ area, (step (fileEnc fuel env o s) validate cfg st .flush).1.out = hdr ++ area ∧
+      readBlocks (fileDec fuel env s) cfg.codec cfg.sync k area =
+        ((gStep (fileEnc fuel env o s) (fileDec fuel env s) validate cfg (fileNf fuel env o s) st g .flush).submitted, .eof) :=
+  flush_reads_back (fileEnc fuel env o s) (fileDec fuel env s) validate cfg (fileNf fuel env o s)
+    (ExtendProofs.readData_ext env {} fuel s) hs hsync hdr st g h hfit k hk
+
+/-- **C07 (failed write).** a write that raises — rejected by the validator or failing part-way
+    through encoding — leaves the writer exactly as it was: it contributes nothing -/
+theorem c07_failed_write_contributes_nothing (enc : Val → WR) (validate : Val → R Bool) (cfg : WCfg)
+    (st : WState) (v : Val) (e : Err) (h : (step enc validate cfg st (.write v)).2 = some e) :
+    (step enc validate cfg st (.write v)).1 = st :=
+  failed_write_noop enc validate cfg st v e h
+
+/-- **C07 (header).** nothing already on the stream is ever changed: after any history the stream is
+    the old contents followed by more bytes — in particular the header (schema, codec, sync marker,
+    metadata) written at creation never changes -/
+theorem c07_header_never_changes (enc : Val → WR) (validate : Val → R Bool) (cfg : WCfg) (st : WState) (ops : List Op) :
+    ∃ t, (run enc validate cfg st ops).out = st.out ++ t :=
+  out_grows enc validate cfg st ops
